@@ -91,6 +91,19 @@ def _shifted_system(fc, Sy: RuleResult):
         Sy.ok(bw.fq, "the shifted solve runs inside A.uselinopparams(*params) and M.uselinopparams(*mparams)")
     else:
         Sy.bad(bw, enclosing_stmt(c), "the shifted solve must run with the differentiable parameter copies of A and M installed")
+    # every projection that involves M runs while M's saved parameters are installed
+    proj_calls = [x for x in ast.walk(bw.node) if isinstance(x, ast.Call) and ast.unparse(x.func) == "_ortho" and any(k.arg == "M" and ast.unparse(k.value) == "M" for k in x.keywords)]
+    outside = []
+    for x in proj_calls:
+        ws = [w for w in ancestors(x) if isinstance(w, ast.With)]
+        wtxt = " ".join(ast.unparse(i.context_expr) for w in ws for i in w.items)
+        if "M.uselinopparams(*mparams)" not in wtxt:
+            outside.append(x)
+    if proj_calls and not outside:
+        Sy.ok(bw.fq, "both projections use M inside `with M.uselinopparams(*mparams)` (the parameters saved by forward, not whatever the operator holds now)")
+    else:
+        Sy.bad(bw, enclosing_stmt(outside[0]) if outside else bw.node, "a projection applies M outside `with M.uselinopparams(*mparams)`: it uses the tensors the operator object holds at "
+               "backward time instead of the ones saved by forward (wrong when the same operator is reused with other parameters in between)")
     # the degeneracy map is only used when degeneracy was detected
     src = ast.unparse(bw.node)
     if "idx_degen, isdegenerate = _check_degen(evals, degen_atol, degen_rtol)" in src and "if not isdegenerate:\n    idx_degen = None" in src.replace("        ", "    ").replace("    " * 2, "    "):
@@ -349,6 +362,9 @@ def _degeneracy_map(model: Model, K: RuleResult):
                 return env[e.id]
             if e.id in (pa, pr):
                 return S(e.id)
+            return None
+        if isinstance(e, (ast.Call, ast.Subscript, ast.Attribute)):
+            return S("<%s>" % ast.unparse(e).replace(" ", ""))      # an operation outside the vocabulary: a distinct, uninterpreted quantity
         return None
     try:
         for s_ in f.node.body:
@@ -363,7 +379,7 @@ def _degeneracy_map(model: Model, K: RuleResult):
                 try:
                     env[s_.targets[0].id] = eval_expr(v, env, hook)
                 except Uninterpretable:
-                    pass
+                    env[s_.targets[0].id] = S("<%s>" % s_.targets[0].id)
     except Uninterpretable as e:
         raise AnalysisError("C06-K: cannot normalise _check_degen: %s" % e)
     if cmp_ is None:
@@ -418,7 +434,7 @@ def rules(model: Model, tier: str) -> List[RuleResult]:
     R3 = RuleResult(PROP, "AC3", "both pull-backs pass create_graph=torch.is_grad_enabled() (second order)", min_instances=2)
     R5 = RuleResult(PROP, "AC5", "the shifted solve receives the saved backward options by ** splat", min_instances=1)
     R6 = RuleResult(PROP, "AC6", "layout: symeig passes (na, *params, *mparams); forward splits at na; backward returns (*grad_params, *grad_mparams)", min_instances=3)
-    Sy = RuleResult(PROP, "C06-S", "shifted system (A - e_i M) g_i = -P b_i and re-projection", min_instances=4)
+    Sy = RuleResult(PROP, "C06-S", "shifted system (A - e_i M) g_i = -P b_i and re-projection, all under the saved parameters of A and M", min_instances=5)
     Mr = RuleResult(PROP, "C06-M", "A and M pull-back cotangents (polynomial normal form) and their pairing with the operator products", min_instances=5)
     O = RuleResult(PROP, "C06-O", "projector: M placement, conjugation and degeneracy map in all six branches", min_instances=6)
     G = RuleResult(PROP, "C06-G", "dense backward: F orientation, degenerate entries voided before inversion, formula, symmetrisation", min_instances=5)
